@@ -551,7 +551,13 @@ def run_keys(case, ctx):
             try:
                 from sklearn.base import clone
                 D = spec.data(numpy.random.RandomState(7))
-                A2 = clone(A)
+                # (a deep copy, not clone: a parameter may be an already trained estimator - TransferTransformer -
+                # whose learnt state a warm-start learner goes on from; clone would drop it on one side only)
+                import copy as _copy
+                try:
+                    A2 = _copy.deepcopy(A)
+                except Exception:
+                    A2 = clone(A)
                 numpy.random.seed(11)
                 spec.fit(A2, D)
                 Q = spec.query(numpy.random.RandomState(8), D)
